@@ -139,6 +139,24 @@ def run(facts, rep, tier):
                 continue
             nidx += 1
             ok, why = index_guarded(b, fl, bb, data, elem, guards)
+            if not ok and all(o_[0] == "param" and not o_[2] for o_ in data) and b.kind != "closure":
+                # a helper indexes with a bare parameter ("must have been validated beforehand"): lift to every call site
+                sites = [(n2, facts.bodies[n2], cbb, ct) for n2 in sorted(layer) for cbb, ct in facts.bodies[n2].calls()
+                         if callee_name(ct) == name and not facts.bodies[n2].is_cleanup(cbb)]
+                lifted = bool(sites)
+                notes = []
+                for n2, cb2, cbb, ct in sites:
+                    cfl = Flow(facts, cb2)
+                    cdata = set()
+                    for o_ in data:
+                        if o_[1] - 1 < len(ct["args"]) and ct["args"][o_[1] - 1][0] != "k":
+                            cdata |= {x for x in cfl.origins(ct["args"][o_[1] - 1], (cbb, None)) if x[0] in ("param", "upvar")}
+                    ok2, why2 = index_guarded(cb2, cfl, cbb, sorted(cdata), elem, collect_guards(facts, cb2, cfl)) if cdata else (False, "argument not traced")
+                    # at a call site there is no receiver container: compare datum and element type only
+                    lifted = lifted and ok2
+                    notes.append("%s: %s" % (n2.split("::")[-1], why2))
+                if lifted:
+                    ok, why = True, "parameter validated at every call site (%s)" % "; ".join(notes)
             rep.ob("C12.I", key, ok, why, b.loc(bb), {"index_origins": [list(map(str, d)) for d in data], "element_type": elem})
     rep.floor("C12.I", "data-derived index sites in the decoder layer", nidx, 8)
     # ---------------- C12.F
@@ -207,6 +225,59 @@ def collect_guards(facts, b, fl, depth=0, datum=_is_struct_datum):
                 if comp:
                     out.append({"switch": ts[0], "idx": frozenset(comp), "elem": g["elem"], "recv": frozenset(),
                                 "oor": ts[2], "inr": ts[1], "via": cn})
+    if depth == 0:
+        # predicate helpers: `if !is_valid_id(ctx, datum) { return Err }` where the helper returns `datum < container.len()`
+        for bb in range(b.nblocks()):
+            if b.term(bb)["k"] != "switch" or b.is_cleanup(bb):
+                continue
+            src = C.switch_source(b, bb)
+            if not src or src["kind"] != "call":
+                continue
+            hb = facts.bodies.get(src["callee"] or "")
+            if hb is None or hb.kind == "closure" or hb.crate != b.crate or hb.file != b.file or hb.local_ty(0) != "bool":
+                continue
+            from ..flow import Flow as _F
+            hfl = _F(facts, hb)
+            ct = b.term(src["bb"])
+            for r in C.return_blocks(hb):
+                for o in hfl.origins(["c", [0]], (r, None)):
+                    if o[0] != "bin" or o[3] not in ("Lt", "Ge", "Gt", "Le"):
+                        continue
+                    rv = hb.stmts(o[1])[o[2]][2]
+                    a_or = hfl.origins(rv[2], (o[1], o[2]))
+                    b_or = hfl.origins(rv[3], (o[1], o[2]))
+
+                    def hlen(ors):
+                        for x in ors:
+                            if x[0] == "call" and x[2].endswith("::len"):
+                                ga = hb.term(x[1])["f"].get("ga") or []
+                                return ga[0] if ga else None
+                        return None
+                    la, lb = hlen(a_or), hlen(b_or)
+                    if lb and not la:
+                        idx_or, elem, inr_when = a_or, lb, {"Lt": True, "Ge": False}.get(o[3])
+                    elif la and not lb:
+                        idx_or, elem, inr_when = b_or, la, {"Gt": True, "Le": False}.get(o[3])
+                    else:
+                        continue
+                    if inr_when is None:
+                        continue
+                    comp = set()
+                    for io in idx_or:
+                        if io[0] == "param" and io[1] - 1 < len(ct["args"]) and ct["args"][io[1] - 1][0] != "k":
+                            for co in fl.origins(ct["args"][io[1] - 1], (src["bb"], None)):
+                                if co[0] == "param":
+                                    comp.add(("param", co[1], tuple(co[2]) + tuple(io[2])))
+                    if not comp:
+                        continue
+                    t = b.term(bb)
+                    arms = dict(t["arms"])
+                    tgt_true = arms.get("1", t["else"])
+                    tgt_false = arms.get("0", t["else"])
+                    truth = inr_when if not src["neg"] else (not inr_when)
+                    out.append({"switch": bb, "idx": frozenset(comp), "elem": elem, "recv": frozenset(),
+                                "oor": tgt_false if truth else tgt_true, "inr": tgt_true if truth else tgt_false,
+                                "via": hb.id})
     for bb in range(b.nblocks()):
         if b.term(bb)["k"] != "switch":
             continue
@@ -284,7 +355,8 @@ def len_equalities(b, fl, site_bb):
 
 
 def index_guarded(b, fl, bb, data, elem, guards):
-    recv = fl.origins(b.term(bb)["args"][0], (bb, None))
+    is_index = (callee_name(b.term(bb)) or "").endswith(("::index", "::index_mut", "::get_unchecked"))
+    recv = fl.origins(b.term(bb)["args"][0], (bb, None)) if is_index else frozenset()
     data = set(data)
     tried = []
     eqs = None
